@@ -186,8 +186,8 @@ type pathEngine struct {
 	badSeen map[string]bool
 	depth   int
 	steps   int
-	evErr   map[string]int         // event -> index of the error result of its call sites
-	vals    map[string]ssa.Value   // value key -> value
+	evErr   map[string]int           // event -> index of the error result of its call sites
+	vals    map[string]ssa.Value     // value key -> value
 	dfns    map[string]*ssa.Function // deferred closure id -> function
 }
 
